@@ -5,6 +5,8 @@ import (
 
 	_ "verif/internal/props/c03"
 	_ "verif/internal/props/c09"
+	_ "verif/internal/props/c10"
+	_ "verif/internal/props/c11"
 	_ "verif/internal/props/c15"
 	_ "verif/internal/props/c19"
 	_ "verif/internal/props/c20"
